@@ -455,16 +455,33 @@ class Interp:
         b = self.bind(func, args, kwargs, def_env, node, env)
         fenv = Env(self, func, func.module, closure)
         fenv.vars.update(b)
+        base_pc = TRUE_T
         if env is not None:
             fenv.loopvars = list(env.loopvars)
+            fenv.pathcond = env.pathcond
+            base_pc = env.pathcond
         self.stack.append(func)
         try:
             flow = self.exec_block(func.node.body, fenv)
         finally:
             self.stack.pop()
-        rets = list(flow.returns)
+        rets = [(self.relative_cond(c, base_pc), v) for c, v in flow.returns]
+        # each return is reached only if the earlier ones were not taken: simplify its condition accordingly
+        simp = []
+        falsified = {}
+        for c, v in rets:
+            c2 = T.assume(c, falsified) if falsified and is_term(c) else c
+            simp.append((c2, v))
+            if is_term(c2) and c2 != TRUE_T:
+                falsified[c2] = False
+                falsified[c] = False
+                if fname(c2) == "not_":
+                    falsified[c2.args[0]] = True
+        rets = simp
         if flow.env is not None:
             rets.append((TRUE_T, None))
+        elif rets and rets[-1][0] != TRUE_T:
+            rets.append((TRUE_T, op("never")))  # the remaining paths raise
         return self.combine_returns(rets)
 
     def combine_returns(self, rets: List[Tuple[sp.Basic, Any]]):
@@ -797,7 +814,7 @@ class Interp:
 
     def ev_IfExp(self, node, env):
         c = self.eval(node.test, env)
-        t = truth(c)
+        t = self.known(c, env)
         if t is True:
             return self.eval(node.body, env)
         if t is False:
@@ -1328,9 +1345,33 @@ class Interp:
         self.note_unknown("local class", st, env)
         return Flow(env=env)
 
+    def known(self, c, env: Env):
+        """truth of condition c under the facts of the current path, or None"""
+        t = truth(c)
+        if t is not None or not is_term(c):
+            return t
+        facts = set(env.pathcond.args) if fname(env.pathcond) == "and_" else {env.pathcond}
+        if c in facts:
+            return True
+        if NOT(c) in facts:
+            return False
+        if fname(c) == "and_":
+            vals = [self.known(a, env) for a in c.args]
+            if any(v is False for v in vals):
+                return False
+            if all(v is True for v in vals):
+                return True
+        if fname(c) == "or_":
+            vals = [self.known(a, env) for a in c.args]
+            if any(v is True for v in vals):
+                return True
+            if all(v is False for v in vals):
+                return False
+        return None
+
     def st_If(self, st, env):
         c = self.eval(st.test, env)
-        t = truth(c)
+        t = self.known(c, env)
         if t is True:
             return self.exec_block(st.body, env)
         if t is False:
@@ -1397,8 +1438,12 @@ class Interp:
             fb = self.exec_block(st.body, env)
         finally:
             self.try_depth -= 1
-        # mark raises inside as caught when a bare/Exception handler exists
-        out = Flow(env=fb.env, returns=list(fb.returns), breaks=list(fb.breaks), conts=list(fb.conts))
+        # returns of the protected body happen only if no exception was raised before them
+        body_returns = list(fb.returns)
+        if st.handlers and body_returns:
+            noexc = NOT(sp.Symbol(f"exc@{self.loc(env, st.handlers[0])}"))
+            body_returns = [(AND(c, noexc), v) for c, v in body_returns]
+        out = Flow(env=fb.env, returns=body_returns, breaks=list(fb.breaks), conts=list(fb.conts))
         if fb.env is not None and st.orelse:
             fo = self.exec_block(st.orelse, fb.env)
             out.env = fo.env
